@@ -82,6 +82,7 @@ type CallRule struct {
 	Requires []*Clause
 	Ensures  []*Clause // scoped assumed postconditions of the callees (definitional ghost links)
 	Assigns  []string  // ghost fields the matched calls change
+	Pure     bool      // the matched calls are assumed not to change the modelled (non-ghost) heap
 	Props    []string
 	File     string
 	Line     int
@@ -358,6 +359,10 @@ func (cs *ContractSet) parseFile(path, pkg string) error {
 			}
 			cur.Sweep = true
 		case "pureeffect":
+			if curRule != nil {
+				curRule.Pure = true
+				continue
+			}
 			if cur == nil {
 				return fail("pureeffect outside func")
 			}
